@@ -281,6 +281,8 @@ func visitInstr(fr *frame, instr ssa.Instruction) continuation {
 		addr := fr.get(instr.Addr)
 		if sp, ok := addr.(*symPtr); ok {
 			sp.store(fr.get(instr.Val))
+		} else if cp, ok := addr.(*castPtr); ok {
+			cp.store(fr.get(instr.Val))
 		} else {
 			p := addr.(*value)
 			if p == nil {
